@@ -37,9 +37,19 @@ SOURCES = {
     'huge': ' nop\n' * 40000 + '.eseg\n.db ' + ', '.join(['5'] * 300) + '\n',      # > 64 KiB of flash: not given to the (quadratic) model
     'error-directive': ' nop\n.error "no"\n',
 }
-NAMES = ['prog.asm', 'sub/prog.asm', 'my.prog.asm', 'noext', '.hidden', 'sub/deep/x.S']
-OUTS = [None, 'out.hex', 'build/fw.hex', 'missing/fw.hex', 'adir', 'sub/../o2.hex']
-EEPS = [None, 'out.eep', 'build/fw.eep.hex', 'missing/e.hex', 'adir', 'same-as-o']
+NAMES = ['prog.asm', 'sub/prog.asm', 'my.prog.asm', 'noext', '.hidden', 'sub/deep/x.S', 'fw.v2/blink', 'fw.v2/sub.d/x', 'sub/../blink2', './dot.asm']
+# 'lnk' is a symbolic link to a directory elsewhere (so lnk/.. is not the start directory); /dev/full opens but cannot be written
+OUTS = [None, 'out.hex', 'build/fw.hex', 'missing/fw.hex', 'adir', 'sub/../o2.hex', 'missing/../o3.hex', 'lnk/../o4.hex', 'lnk/o5.hex', '/dev/full']
+EEPS = [None, 'out.eep', 'build/fw.eep.hex', 'missing/e.hex', 'adir', 'same-as-o', 'missing/../e3.hex', 'lnk/../e4.hex', '/dev/full']
+def impl_only(s): return s['sk'] == 'huge' or any(x and ('lnk/' in x or x.startswith('/dev/')) for x in (s['o'], s['e']))
+
+def target(cwd, x):
+    """(path as the OS sees it, can a file be created and written there)"""
+    raw = os.path.join(cwd, x)
+    dirn = os.path.dirname(raw)
+    if not os.path.isdir(dirn): return os.path.normpath(raw), False
+    real = os.path.join(os.path.realpath(dirn), os.path.basename(raw))
+    return real, not os.path.isdir(real) and not raw.startswith('/dev/')
 
 def stem(name):
     b = os.path.basename(name)
@@ -67,25 +77,26 @@ def run(tier, seed, model_ok):
         # every source x every -o kind x every -e kind at least once, names sampled
         seen, pick = set(), []
         for c in combos:
-            k1, k2, k3 = (c[0], c[2]), (c[0], c[3]), (c[1], c[2], c[3])
-            if k1 not in seen or k2 not in seen or k3 not in seen:
-                pick.append(c); seen.update([k1, k2, k3])
+            ks = [('so', c[0], c[2]), ('se', c[0], c[3]), ('no', c[1], c[2]), ('ne', c[1], c[3]), ('oe', c[2], c[3])]
+            if any(k not in seen for k in ks):
+                pick.append(c); seen.update(ks)
         combos = pick
     scen = []
     try:
         for idx, (sk, name, o, e) in enumerate(combos):
             d = os.path.join(root, 'c%d' % idx)
             work = os.path.join(d, 'work'); home = os.path.join(d, 'home')
-            for sub in ('sub/deep', 'build', 'adir'): os.makedirs(os.path.join(work, sub))
+            for sub in ('sub/deep', 'build', 'adir', 'fw.v2/sub.d'): os.makedirs(os.path.join(work, sub))
             os.makedirs(home)
             stdinc = os.path.join(home, '.config', 'avra-rs', 'includes'); os.makedirs(stdinc)
             open(os.path.join(stdinc, 'c18_std.inc'), 'w').write('.equ STDVAL = 77\n')
             os.makedirs(os.path.join(d, 'elsewhere', 'build')); os.makedirs(os.path.join(d, 'elsewhere', 'adir'))
+            os.symlink(os.path.join('..', 'elsewhere', 'build'), os.path.join(work, 'lnk')); os.symlink(os.path.join('..', 'work', 'build'), os.path.join(d, 'elsewhere', 'lnk'))
             # where the tool is started and how the source is named: next to it with a relative name (usual), or from
             # another directory with an absolute name — the default outputs stay next to the SOURCE, -o/-e follow the start directory
             away = rng.random() < .3
             cwd = os.path.join(d, 'elsewhere') if away else work
-            srcp = os.path.join(work, name)
+            srcp = os.path.normpath(os.path.join(work, name))
             open(srcp, 'w').write(SOURCES[sk])
             open(os.path.join(os.path.dirname(srcp), 'part.inc'), 'w').write('.equ PART = 42\n')
             verbose = rng.random() < .4
@@ -93,16 +104,16 @@ def run(tier, seed, model_ok):
             # documented target paths
             if away and (o or '').startswith('sub/') : o = 'build/fw2.hex'
             if away and (e or '').startswith('sub/') : e = 'build/fw2.eep'
-            p1 = os.path.normpath(os.path.join(cwd, o)) if o else os.path.join(os.path.dirname(srcp), stem(name) + '.hex')
-            p2 = os.path.normpath(os.path.join(cwd, e)) if e else os.path.join(os.path.dirname(srcp), stem(name) + '.eep.hex')
+            (p1, w1) = target(cwd, o) if o else (os.path.join(os.path.dirname(srcp), stem(name) + '.hex'), True)
+            (p2, w2) = target(cwd, e) if e else (os.path.join(os.path.dirname(srcp), stem(name) + '.eep.hex'), True)
             stale = rng.random() < .5
             if stale:
                 for p in (p1, p2):
-                    if os.path.isdir(os.path.dirname(p)) and not os.path.isdir(p) and p != srcp:
+                    if os.path.isdir(os.path.dirname(p)) and not os.path.isdir(p) and p != srcp and not p.startswith('/dev/'):
                         open(p, 'w').write('STALE ' + os.path.basename(p) + '\n' + 'x' * rng.choice([0, 5000, 200000]))   # often longer than what will be written: a writer that does not truncate shows
-            sname = srcp if away else name
+            sname = os.path.join(work, name) if away else name
             args = ['-s', sname] + (['-o', o] if o else []) + (['-e', e] if e else []) + (['-v'] if verbose else [])
-            scen.append(dict(idx=idx, sk=sk, name=sname, o=o, e=e, work=cwd, top=d, home=home, srcp=srcp, p1=p1, p2=p2, stale=stale, args=args, verbose=verbose, away=away))
+            scen.append(dict(idx=idx, sk=sk, name=sname, o=o, e=e, work=cwd, top=d, home=home, srcp=srcp, p1=p1, p2=p2, w1=w1, w2=w2, stale=stale, args=args, verbose=verbose, away=away))
             dist['started in another directory with an absolute source name' if away else 'started next to the source'] += 1
             dist['source ' + sk] += 1; dist['-o ' + str(o)] += 1; dist['-e ' + str(e)] += 1
         # the library's answers (same include directory as the tool passes)
@@ -110,7 +121,7 @@ def run(tier, seed, model_ok):
         # model: file system before the run
         mlines = []
         for s in scen:
-            if s['sk'] == 'huge': continue
+            if impl_only(s): continue
             mlines += ['FSCLEAR', 'CWD ' + vlib.hx(s['work'])]
             dirs = set()
             for dp, dn, fn in os.walk(os.path.dirname(s['work'])):
@@ -156,12 +167,11 @@ def run(tier, seed, model_ok):
             expect_fail = False
             allowed = set()
             same = s['p1'] == s['p2'] and code and ee
-            for img, path, which in ((code, s['p1'], 'flash'), (ee, s['p2'], 'eeprom')):
+            for img, path, writable, which in ((code, s['p1'], s['w1'], 'flash'), (ee, s['p2'], s['w2'], 'eeprom')):
                 if not img:
                     if path in changed and not (same or (path == s['p2'] and s['p1'] == s['p2'] and code) or (path == s['p1'] and s['p1'] == s['p2'] and ee)):
                         bad('the %s image is empty but %s was created or altered' % (which, os.path.relpath(path, s['work'])), 'altered')
                     continue
-                writable = os.path.isdir(os.path.dirname(path)) and not os.path.isdir(path)
                 if not writable:
                     expect_fail = True
                     continue
@@ -182,7 +192,7 @@ def run(tier, seed, model_ok):
                 for m in bytes.fromhex(f['msgs']).decode().split('\n'):
                     if m not in out: bad('-v does not print the message %r' % m, 'verbose')
             # model
-            if model_ok and s['sk'] != 'huge':
+            if model_ok and not impl_only(s):
                 mr = model.get('m%d' % s['idx'], 'MISSING')
                 try:
                     parts = mr.split(' ')
@@ -203,7 +213,7 @@ def run(tier, seed, model_ok):
         if model_ok:
             for s in scen:
                 L = lib.get('l%d' % s['idx'], '')
-                if L.startswith('ERR'):
+                if L.startswith('ERR') and not impl_only(s):
                     mr = model.get('m%d' % s['idx'], 'MISSING')
                     if not mr.startswith('EXIT 1 FAIL 1 WRITES -'):
                         dis.append({'args': s['args'], 'source_kind': s['sk'], 'impl': 'build fails', 'model': mr[:120]})
@@ -218,8 +228,8 @@ def run(tier, seed, model_ok):
         shutil.rmtree(root, ignore_errors=True)
     return {
         'evaluations': len(scen), 'distinct_nontrivial': len({(s['sk'], s['name'], str(s['o']), str(s['e']), s['verbose'], s['stale']) for s in scen}),
-        'rule': 'scenarios = source kind (%d) x source name shape (%d) x -o (%d: absent, plain, existing directory, missing directory, a directory, with ..) x -e (%d, incl. the same path as -o), -v and stale target files by seeded coin; %s; each scenario runs the real binary in its own scratch tree (own HOME), the tree is snapshotted before and after; every written file is decoded by the independent HEX reader and compared with the library\'s image' % (
-            len(SOURCES), len(NAMES), len(OUTS), len(EEPS), 'all combinations' if tier == 'thorough' else 'a covering sample (every source x -o, every source x -e, every name x -o x -e)'),
+        'rule': 'scenarios = source kind (%d) x source name shape (%d) x -o (%d: absent, plain, existing directory, missing directory, a directory, with .. through an existing, a missing and a symbolically linked directory, a device that opens but cannot be written) x -e (%d, incl. the same path as -o), -v and stale target files by seeded coin; %s; each scenario runs the real binary in its own scratch tree (own HOME), the tree is snapshotted before and after; every written file is decoded by the independent HEX reader and compared with the library\'s image' % (
+            len(SOURCES), len(NAMES), len(OUTS), len(EEPS), 'all combinations' if tier == 'thorough' else 'a covering sample (every pair of source, name, -o, -e values)'),
         'samples': [{'args': scen[0]['args'], 'source': SOURCES[scen[0]['sk']][:80]}],
         'exhaustive': tier == 'thorough',
         'distribution': dict(dist, exit_status=dict(Counter(str(s['rc']) for s in scen)), files_decoded=len(hexlines)),
